@@ -406,6 +406,11 @@ func (p *parser) method(recv SVal, name string, as []SVal) SVal {
 							}
 						}
 					}
+					if _, recvPtr := fn.Params[0].Type().Underlying().(*types.Pointer); recvPtr {
+						if _, isPtr := recv.T.Underlying().(*types.Pointer); !isPtr {
+							all = append([]*RF{x.S.MakeFn("ref", recv.RF)}, all[1:]...)
+						}
+					}
 					return SVal{x.CallFn(fn, all), rt}
 				}
 			}
